@@ -6,6 +6,7 @@ import (
 	"net"
 	"sync"
 
+	"github.com/buildbuildio/pebbles/common/verifhook"
 	"github.com/buildbuildio/pebbles/executor"
 	"github.com/buildbuildio/pebbles/gqlerrors"
 	"github.com/buildbuildio/pebbles/planner"
@@ -126,27 +127,41 @@ func (se *subscriptionEntry) prepareResponse(resp *requests.Response) *requests.
 }
 
 func (se *subscriptionEntry) Close() {
+	defer verifhook.At("K.done", se.respCh)
+	verifhook.At("K.tryLock", se.respCh)
 	se.TryLock()
+	verifhook.At("K.readClosed", se.respCh)
 	isClosed := se.isClosed
+	verifhook.At("K.unlock", se.respCh)
 	se.Unlock()
 	if isClosed {
 		return
 	}
+	verifhook.At("K.sendC", se.respCh)
 	se.closeCh <- struct{}{}
 }
 
 func (se *subscriptionEntry) Listen(conn net.Conn) {
+	defer verifhook.At("L.done", se.respCh)
 	defer func() {
+		verifhook.At("L.sendQ", se.respCh)
 		se.queryerCloseCh <- struct{}{}
+		verifhook.At("L.lock", se.respCh)
 		se.Lock()
 		defer se.Unlock()
+		defer verifhook.At("L.unlock", se.respCh)
+		verifhook.At("L.closeQ", se.respCh)
 		close(se.queryerCloseCh)
+		verifhook.At("L.closeC", se.respCh)
 		close(se.closeCh)
+		verifhook.At("L.closeR", se.respCh)
 		close(se.respCh)
+		verifhook.At("L.setClosed", se.respCh)
 		se.isClosed = true
 	}()
 
 	for {
+		verifhook.At("L.sel", se.respCh)
 		select {
 		case resp := <-se.respCh:
 			if resp == nil {
@@ -161,6 +176,7 @@ func (se *subscriptionEntry) Listen(conn net.Conn) {
 			if err != nil {
 				return
 			}
+			verifhook.At("L.write", se.respCh)
 			if err := wsutil.WriteServerText(conn, bResp); err != nil {
 				return
 			}
